@@ -59,13 +59,26 @@ def atom(cond, pol):
     while cond is not None and cond.k == "UnaryOperator" and cond.op == "!":
         cond = strip_casts(cond.c[0])
         pol = not pol
-    # (x) != 0 / (x) == 0
-    if cond is not None and cond.k == "BinaryOperator" and cond.op in ("==", "!=") and cond.c[1] is not None \
-            and cond.c[1].v == 0 and cond.c[0].k in ("BinaryOperator", "UnaryOperator", "CallExpr") \
-            and not (cond.c[0].k == "BinaryOperator" and cond.c[0].op in ("&", "+", "-", "*", "/", "%", "|", "^", "<<", ">>")):
-        inner = cond.c[0]
-        return atom(inner, pol if cond.op == "!=" else not pol)
+    # x != 0 / x == 0 / x == NULL / x != NULL  (any x: condition spelling must not matter)
+    if cond is not None and cond.k == "BinaryOperator" and cond.op in ("==", "!=") and cond.c[1] is not None and cond.c[0] is not None:
+        rhs, lhs = strip_casts(cond.c[1]), strip_casts(cond.c[0])
+        zero = lambda e: e is not None and e.k == "IntegerLiteral" and e.v == 0
+        if zero(lhs) and not zero(rhs):
+            lhs, rhs = rhs, lhs
+        if zero(rhs) and lhs is not None and not (lhs.k == "BinaryOperator" and lhs.op in ("+", "-", "*", "/", "%", "|", "^", "<<", ">>")):
+            return atom(lhs, pol if cond.op == "!=" else not pol)
     return cond, pol
+
+
+def cmp_parts(n):
+    """(lhs, op, rhs) of a comparison with a constant operand moved to the right and `>`/`>=` turned round, or None."""
+    n = strip_casts(n)
+    if n is None or n.k != "BinaryOperator" or n.op not in CMP:
+        return None
+    a, b, op = strip_casts(n.c[0]), strip_casts(n.c[1]), n.op
+    if a is not None and a.v is not None and (b is None or b.v is None):
+        a, b, op = b, a, SWAP[op]
+    return a, op, b
 
 
 class Facts:
